@@ -11,6 +11,7 @@ package c07
 import (
 	"fmt"
 	"reflect"
+	"runtime/debug"
 	"sort"
 	"strconv"
 	"strings"
@@ -19,7 +20,14 @@ import (
 	"verifharness/common"
 )
 
-func init() { common.Register("C07", run) }
+func init() {
+	common.Register("C07", run)
+	// A defect that makes collisionNode.assoc recurse without bound ends in a Go
+	// stack overflow, which is fatal (not a recoverable panic) and kills the
+	// harness: the check then reports a broken harness run.  Fail fast instead of
+	// growing the stack to the default 1 GB.
+	debug.SetMaxStack(64 << 20)
+}
 
 type key struct {
 	id, cls int
@@ -701,7 +709,7 @@ func universe(r *common.Rand) (hashes []uint32, scheme string) {
 
 func gen(c *common.Ctx, emit func(...string)) {
 	r := c.Rand
-	nh := c.Scale(500, 40000)
+	nh := c.Scale(500, 6000)
 	schemes := map[string]int{}
 	for hI := 0; hI < nh; hI++ {
 		hashes, scheme := universe(r)
